@@ -388,10 +388,13 @@ def known_findings():
 
 
 def write_evidence(prop, tier, seed, level, coverage, wall, assumptions, violations=0):
-    os.makedirs(os.path.join(ROOT, "evidence"), exist_ok=True)
+    # VERIF_EVIDENCE_DIR: development aid (bin/selftest, bin/seedcheck run the checks against mutated trees
+    # and must not overwrite the evidence of the unchanged tree)
+    edir = os.environ.get("VERIF_EVIDENCE_DIR") or os.path.join(ROOT, "evidence")
+    os.makedirs(edir, exist_ok=True)
     ev = {"property_id": prop, "tier": tier, "seed": int(seed), "level": level, "coverage": coverage,
           "assumptions": assumptions, "wall_s": round(wall, 1), "violations": violations}
-    json.dump(ev, open(os.path.join(ROOT, "evidence", prop + ".json"), "w"), indent=1)
+    json.dump(ev, open(os.path.join(edir, prop + ".json"), "w"), indent=1)
 
 
 def write_replay(prop, seed, tier, leg, params, detail):
